@@ -634,6 +634,57 @@ pub fn c12_native<G: AffineRepr + 'static>(maxcap: usize) -> Checks {
                     }
                 }
             }
+            // internal-iteration consumers (fold / for_each / count / last / max_by_key / position / all) on a view that was
+            // first advanced from outside, and through map / cloned / chain / peekable / zip / take
+            for pre in 0..=want.len().min(n + 1) {
+                let tail: Vec<G> = want.iter().skip(pre).cloned().collect();
+                let adv = |it: &mut dyn Iterator<Item = &G>| {
+                    for _ in 0..pre {
+                        it.next();
+                    }
+                };
+                let r = catch(|| {
+                    let mut v1 = vec![];
+                    let mut it = gens.G(n, m);
+                    adv(&mut it);
+                    it.for_each(|p| v1.push(*p));
+                    let mut it = gens.G(n, m);
+                    adv(&mut it);
+                    let v2 = it.fold(vec![], |mut acc: Vec<G>, p| { acc.push(*p); acc });
+                    let mut it = gens.G(n, m);
+                    adv(&mut it);
+                    let c = it.count();
+                    let mut it = gens.G(n, m);
+                    adv(&mut it);
+                    let l = it.last().cloned();
+                    let mut it = gens.G(n, m);
+                    adv(&mut it);
+                    let v3: Vec<G> = it.map(|p| *p).chain(std::iter::empty()).collect();
+                    let mut it = gens.G(n, m).peekable();
+                    for _ in 0..pre {
+                        it.next();
+                    }
+                    let pk = it.peek().map(|p| **p);
+                    let v4 = it.fold(vec![], |mut acc: Vec<G>, p| { acc.push(*p); acc });
+                    let mut it = gens.G(n, m);
+                    adv(&mut it);
+                    let pos = it.position(|_| false);
+                    let v5: Vec<G> = gens.G(n, m).skip(pre).cloned().collect();
+                    let c5 = gens.G(n, m).skip(pre).count();
+                    let v6: Vec<G> = gens.G(n, m).zip(gens.H(n, m)).skip(pre).map(|(g, _)| *g).collect();
+                    (v1, v2, c, l, v3, pk, v4, pos, v5, c5, v6)
+                });
+                let good = match &r {
+                    Ok((v1, v2, c, l, v3, pk, v4, pos, v5, c5, v6)) => *v1 == tail && *v2 == tail && *c == tail.len() && *l == tail.last().cloned() && *v3 == tail && *pk == tail.first().cloned() && *v4 == tail && pos.is_none() && *v5 == tail && *c5 == tail.len() && *v6 == tail,
+                    Err(_) => false,
+                };
+                if !good {
+                    adaptors_ok = false;
+                    if first_bad.is_empty() {
+                        first_bad = format!("G({},{}): {} x next() then for_each / fold / count / last / map / peekable / position / skip / zip", n, m, pre);
+                    }
+                }
+            }
             let sk = catch(|| gens.H(n, m).skip(2).step_by(2).cloned().collect::<Vec<G>>());
             let want_h: Vec<G> = (0..m).flat_map(|j| gens.share(j).verif_H(n)).collect();
             let exp: Vec<G> = want_h.iter().skip(2).step_by(2).cloned().collect();
